@@ -4,10 +4,10 @@ from fractions import Fraction
 from vk import env as _env  # noqa: F401
 from vk.core import rng_for, simple_plan, h
 from vk.checks import c01
-from vk.gen.plans import all_or_sampled, executable_sequences
+from vk.gen.plans import all_or_sampled, executable_sequences, toggle_walk, plain_walk
 from vk.recipe import sequential_plan
 from vk.ref import seqsem
-from vk.ref.evalx import Interp, ev, holds, UNDEF, Unsupported
+from vk.ref.evalx import Interp, ev, holds, UNDEF, Unsupported, const_value
 
 PROPERTY = "C03"
 LEVEL = "exploration"
@@ -208,16 +208,10 @@ def run_case(key, tier, res, only_plan=None):
     goal, nongoal = executable_sequences(pb, insts, b["L"], cap_nodes=600, want=6)
     plans = [[]] + [p for p in plans if p] + goal + nongoal
     # one deep executable plan (beyond UPState's ancestor-flattening depth of 20), found by a reference-guided random walk
-    deep, s = [], rs0
-    for _ in range(b.get("deep", 0)):
-        cands = [(a, args, r) for a, args in insts for r in [seqsem.succ(pb, s, a, args)] if r.status == seqsem.OKAY]
-        changing = [c for c in cands if c[2].info.get("changed")]
-        pool = changing if changing and rng.random() < 0.85 else cands
-        if not pool:
-            break
-        a, args, r = rng.choice(pool)
-        deep.append((a, args))
-        s = r.state
+    deep = []
+    if b.get("deep", 0):
+        walk = toggle_walk if rng.random() < 0.7 else plain_walk
+        deep = [(a, args) for a, args, _ in walk(pb, insts, b["deep"], rng, rs0)]
     if len(deep) > 20:
         res.count("deep_plans")
         plans.append(deep)
